@@ -39,7 +39,7 @@ Proof.
   constructor.
   - constructor; [constructor|..]; simpl.
     1-9: intros; apply cx_eq; simpl; ring.
-    + intros E. inversion E as [[E1]]. exact (f1_neq_0 R ROK E1).
+    + intros E. inversion E as [[E1]]. exact (f1_neq_0 ROK E1).
     + reflexivity.
     + intros p H. unfold cxmul, cxinv. assert (N := cxnorm2_nz p H).
       apply cx_eq; simpl; unfold cxnorm2 in *; field; exact N.
